@@ -485,6 +485,37 @@ theorem lookup_update_ne (k k' : String) (v : Val) (h : k' ≠ k) : ∀ fs : Lis
       | ok inner =>
         cases inner <;> cases iv <;> try rfl
         all_goals (simp only; split <;> rfl)
+@[gomini] theorem assignTo_idx_sel_sel_var (ev : Expr → St → R (Val × St)) (a g f : String) (i : Expr) (v : Val) (st : St) :
+    assignTo ev (.idx (.sel (.sel (.var a) g) f) i) v st = (ev i st >>= fun r =>
+      match r.2.env a with
+      | some rr => getField g rr >>= fun mid => getField f mid >>= fun inner =>
+        match inner, r.1 with
+        | .struct fs, .str k => setPath [g, f] (.struct (update k v fs)) rr >>= fun r' => pure (r.2.set a r')
+        | .nil, .str _ => .panic
+        | _, _ => .stuck "index assignment"
+      | none => .stuck ("unbound " ++ a)) := by
+  rw [assignTo]
+  simp only [bind, R.bind, pure]
+  cases ev i st with
+  | panic => rfl
+  | stuck w => rfl
+  | ok r =>
+    obtain ⟨iv, s1⟩ := r
+    simp only
+    cases s1.env a with
+    | none => rfl
+    | some rr =>
+      simp only
+      cases getField g rr with
+      | panic => rfl
+      | stuck w => rfl
+      | ok mid =>
+        simp only
+        cases getField f mid with
+        | panic => rfl
+        | stuck w => rfl
+        | ok inner =>
+          cases inner <;> cases iv <;> rfl
 @[gomini] theorem getField_struct (f : String) (fs : List (String × Val)) :
     getField f (.struct fs) = (match lookup f fs with | some v => .ok v | none => .stuck ("no field " ++ f)) := rfl
 @[gomini] theorem getField_nil (f : String) : getField f .nil = .panic := rfl
